@@ -6,6 +6,7 @@
 (***************************************************************************)
 EXTENDS Locale, Ascii, TLC, Json
 
+CONSTANT Kind     \* "match": emit matches() cases; "cmp": emit comparison cases (C12)
 VARIABLES a, b, ea, eb, ph
 
 Langs    == { B("und"), B("en"), B("de") }
@@ -53,10 +54,26 @@ PrivateRule == \A i \in 1..4 :
     MatchesLoc(A, Bv, Flags[i][1], Flags[i][2]) =
         (ea # "x" /\ eb # "x" /\ MatchesLI(a, b, Flags[i][1], Flags[i][2]))
 
+(* ----- C12 on the specification: the field-by-field order is a strict    *)
+(* total order on identifiers, and equality is equality of canonical text   *)
+OrderTotal == /\ (a = b) = (CmpLI(a, b) = "eq")
+              /\ (CmpLI(a, b) = "lt") = (CmpLI(b, a) = "gt")
+              /\ a # b => (LessLI(a, b) /\ ~LessLI(b, a)) \/ (LessLI(b, a) /\ ~LessLI(a, b))
+OrderTransitive == (ea = "none" /\ eb = "none" /\ LessLI(a, b)) =>
+                      \A c \in Ids : LessLI(b, c) => LessLI(a, c)
+TextInjective == /\ (a = b) = (SerLI(a) = SerLI(b))
+                 /\ (A = Bv) = (SerLoc(A) = SerLoc(Bv))
+AbsentSortsFirst == /\ (a.lang = Und /\ b.lang # Und) => LessLI(a, b)
+                    /\ (a.lang = b.lang /\ a.script = <<>> /\ b.script # <<>>) => LessLI(a, b)
+
+CmpRec ==
+    [k |-> "cmp", a |-> [start |-> SerLoc(A), ops |-> <<>>], b |-> [start |-> SerLoc(Bv), ops |-> <<>>],
+     eq |-> (A = Bv), sa |-> SerLoc(A), sb |-> SerLoc(Bv), li_ord |-> CmpLI(a, b)]
+
 CaseRec ==
     [k |-> "match", a |-> SerLoc(A), b |-> SerLoc(Bv),
      loc  |-> [i \in 1..4 |-> MatchesLoc(A, Bv, Flags[i][1], Flags[i][2])],
      li   |-> [i \in 1..4 |-> MatchesLI(a, b, Flags[i][1], Flags[i][2])],
      lang |-> [i \in 1..4 |-> FieldMatch(a.lang, b.lang, Flags[i][1], Flags[i][2], Und)]]
-EmitCase == ph = 1 => PrintT("CASE " \o ToJson(CaseRec))
+EmitCase == ph = 1 => PrintT("CASE " \o ToJson(IF Kind = "cmp" THEN CmpRec ELSE CaseRec))
 =============================================================================
